@@ -33,7 +33,10 @@ pub fn with_setup_histories(scn: &mut Scenario, rng: &mut Xo, max_iters: u64) {
     // API histories that precede the final solve
     let feasible = ["open", "balls", "shell_door"];
     second_problem(scn, rng, &feasible);
-    let it = |rng: &mut Xo| 1 + rng.below(max_iters);
+    let l = crate::spaces::geo_for(&scn.space).unwrap().lvs();
+    let ext = scn.param("ext").unwrap_or(1.0);
+    let pl = scn.planner.clone();
+    let it = |rng: &mut Xo| gen::affordable_iters(&pl, l, ext, 1 + rng.below(max_iters));
     let prm = scn.planner.kind == PlannerKind::PRM;
     let calls: Vec<CallSpec> = if prm {
         match rng.below(6) {
